@@ -95,6 +95,14 @@ TEXT.update({
             "as C06; power-of-two row counts as the property states"),
 })
 
+TEXT.update({
+    "C09": ("cubic", "schoolbook polynomial oracle (integer product, x^3=x+1), exhaustive 12^6 boundary pairs, aliasing forms, a*inv(a)=1, all batch lengths, isOne representation grid",
+            "Every scalar cubic-extension overload compared with the oracle on all 12^6 boundary coefficient pairs and 3*10^7 (quick) / 10^9 (thorough) mixed pairs, inversion on "
+            "structured elements, batchInverse for every length 1..130 and up to 4*10^5 (3*10^6 thorough) elements in forked children, isOne on every representation of one and on "
+            "near-ones; prod and ASan/UBSan builds. Found F10 (isOne) and F11 (batchInverse stack overflow) on the pinned tree, fixed in /repo 1e163bd and 76c4efa.",
+            "u128 oracle; Gaussian elimination in the oracle for the reference inverse"),
+})
+
 NOT_YET = "check not built yet in this revision of /verif (planned, see DESIGN.md section 3)"
 
 
